@@ -73,7 +73,7 @@ func init() {
 		}
 		return "ok " + toHex(buf.Bytes()) + " " + toHex([]byte(digest))
 	})
-	dec := func(args []string, sizes []int, withCounts bool, copyRest bool) string {
+	dec := func(args []string, sizes []int, withCounts bool, copyRest bool, more int) string {
 		enc := miceEnc(args[0])
 		mx, err := strconv.ParseUint(args[1], 10, 64)
 		if err != nil {
@@ -118,12 +118,34 @@ func init() {
 				counts = append(counts, strconv.Itoa(k))
 			}
 		}
+		if more > 0 {
+			// further Reads after the first non-ok status (the model continues from the same state)
+			rs := []string{}
+			for i := 0; i < more; i++ {
+				buf := make([]byte, 4096)
+				k, err := r.Read(buf)
+				st := "ok"
+				if err != nil {
+					st = miceStatus(err)
+				}
+				rs = append(rs, toHex(buf[:k])+":"+st)
+			}
+			return fmt.Sprintf("%s %s %s %s", toHex(out), strings.Join(counts, ","), miceStatus(final), strings.Join(rs, ","))
+		}
+		if final == io.EOF {
+			// after a clean end the decoder stays finished: two more Reads hand out nothing
+			for i := 0; i < 2; i++ {
+				if k, err := r.Read(make([]byte, 4096)); k != 0 || err != io.EOF {
+					return fmt.Sprintf("bytes-after-eof %d", k)
+				}
+			}
+		}
 		if withCounts {
 			return fmt.Sprintf("%s %s %s", toHex(out), strings.Join(counts, ","), miceStatus(final))
 		}
 		return fmt.Sprintf("%s %s", toHex(out), miceStatus(final))
 	}
-	miceAll = func(args []string) string { return dec(args, nil, false, false) }
+	miceAll = func(args []string) string { return dec(args, nil, false, false, 0) }
 	register("mice.all", miceAll)
 	register("mice.dec", func(args []string) string {
 		sizes := []int{}
@@ -136,7 +158,25 @@ func init() {
 				sizes = append(sizes, n)
 			}
 		}
-		return dec(args, sizes, true, false)
+		return dec(args, sizes, true, false, 0)
+	})
+	// mice.dec.more <read|copy> <draft> <max> <digest> <stream> <sizes> <k>: as mice.dec / mice.dec.copy, then k further Reads
+	register("mice.dec.more", func(args []string) string {
+		sizes := []int{}
+		if args[5] != "-" {
+			for _, s := range strings.Split(args[5], ",") {
+				n, err := strconv.Atoi(s)
+				if err != nil {
+					panic("bad-op")
+				}
+				sizes = append(sizes, n)
+			}
+		}
+		k, err := strconv.Atoi(args[6])
+		if err != nil || k < 1 {
+			panic("bad-op")
+		}
+		return dec(args[1:], sizes, true, args[0] == "copy", k)
 	})
 	register("mice.dec.copy", func(args []string) string {
 		sizes := []int{}
@@ -149,6 +189,6 @@ func init() {
 				sizes = append(sizes, n)
 			}
 		}
-		return dec(args, sizes, true, true)
+		return dec(args, sizes, true, true, 0)
 	})
 }
